@@ -11,6 +11,21 @@ NA = {
 }
 
 CHECKS = {
+    'C02': dict(
+        category='other', design_ref='DESIGN.md §5 C02, §4 analysis B',
+        technique='panic-edge audit over MIR: Assert terminators + deny-listed panicking APIs, discharged by dominance/length/constant guard rules or a reviewed position-free ledger; producer rules over aggregates',
+        text='Every construct through which the interpreter\'s own code can panic is an obligation discharged by an automatic guard rule or an audited ledger entry; any new edge is reported with function, kind and operand. Conservative direction (no unaudited edge => no panic from repository code modulo the deny-list), which is the only sound direction for a never-panics claim. Termination/stack depth are not decided.',
+        note='deny-list completeness, dependency internals, host closures, allocation failure and recursion depth are outside the claim'),
+    'C17': dict(
+        category='other', design_ref='DESIGN.md §5 C17',
+        technique='provenance normal forms of every serde method (sibling delegations substituted) compared with a reference shape table; panic-edge audit of ser.rs; marker-name agreement between producers and consumer',
+        text='The value returned by every Serializer/KeySerializer/compound method, reduced to a normal form, equals the shape table of the property (integer kinds, containers, variants, option/unit, marker newtypes); element and entry methods store the converted element/key/value; ser.rs has no unaudited panic edge; the Duration/Timestamp wrappers and the time serializer agree on names and exact components. Commutation with serde_json is not decided.',
+        note='serde provided methods and the reference table trusted'),
+    'C18': dict(
+        category='other', design_ref='DESIGN.md §5 C18',
+        technique='decision-tree arm table with provenance predicates, use/def rule for nested results, panic-edge audit',
+        text='Per Value variant the export arm is exactly the documented mapping (conversions by serde_json From of the payload without casts, base64 STANDARD, RFC 3339, nanosecond count with overflow error, catch-all error); nested json() results are `?`-propagated or collected into a Result; json.rs has no panic edge. The import-back round trip is not decided.',
+        note='analysed with the json feature; serde_json/base64/chrono behaviour trusted'),
     'C16': dict(
         category='other', design_ref='DESIGN.md §5 C16',
         technique='table rule (registration name -> function -> chrono accessor chain with receiver provenance), API rules for comparison and checked arithmetic',
